@@ -345,7 +345,8 @@ Section Monitors.
 
   (* C18 — only-if-cached: no origin call whatsoever, and the answer is a usable stored response or a 504 *)
   Definition mon_C18 : verdict :=
-    if sd_has (bs "only-if-cached") (spec_cc (q_hdr q)) && is_get (q_method q) && beq (hget (bs "Range") (q_hdr q)) [] then
+    (* any request: one the cache never answers from its store (another method, a Range request) gets the 504 *)
+    if sd_has (bs "only-if-cached") (spec_cc (q_hdr q)) then
       match fg_calls o, flat_map (fun ev => match ev with EvCall i _ _ _ _ => [i] | _ => [] end) (x_bg_events o) with
       | [], [] =>
           match the_how with
